@@ -15,6 +15,8 @@
 #include <memory>
 
 #include <time.h>
+#include <unistd.h>
+#include <sys/syscall.h>
 
 #include "torrent/exceptions.h"
 #include "torrent/system/scheduler.h"
@@ -68,6 +70,16 @@ std::chrono::system_clock::time_point std::chrono::system_clock::now() noexcept 
   timespec ts;
   clock_gettime(CLOCK_REALTIME, &ts);
   return time_point(std::chrono::duration_cast<duration>(std::chrono::seconds(ts.tv_sec) + std::chrono::nanoseconds(ts.tv_nsec)));
+}
+
+// Poll::init_thread() creates a fresh eventfd on every event_loop() start and nothing closes it
+// (one descriptor per thread start in the real program). The harness starts event_loop once per L
+// op, so it remembers the descriptor and closes it after the loop has returned.
+static int g_last_eventfd = -1;
+extern "C" int eventfd(unsigned int initval, int flags) {
+  int fd = (int)syscall(SYS_eventfd2, initval, flags);
+  g_last_eventfd = fd;
+  return fd;
 }
 
 struct Run;
@@ -267,6 +279,7 @@ static std::string run_case(const std::string& line) {
       } catch (torrent::internal_error&) {
         items.push_back("ERR:internal");
       }
+      if (g_last_eventfd != -1) { ::close(g_last_eventfd); g_last_eventfd = -1; }
       if (ok) {
         if (g_poll_calls != 1) throw std::runtime_error("do_poll called " + std::to_string(g_poll_calls) + " times");
         items.push_back("th=" + std::to_string(g_poll_th_us) + " sc=" + std::to_string(g_poll_sc_us) +
